@@ -23,6 +23,7 @@ inductive Err
   | type    -- TypeError
   | value   -- ValueError
   | attr    -- AttributeError
+  | notimpl -- NotImplementedError
 deriving DecidableEq, Repr
 
 deriving instance DecidableEq for Except
@@ -36,6 +37,15 @@ structure Cfg where
   resetPhase : Bool
   /-- the `state` property does not store the reshaped array back into `_state` (fix C16-2) -/
   pureGetter : Bool
+  /-- density-matrix mode refuses a gate conditioned on a bit that a measurement has written (fix C02-3);
+  `false` = the gate is decided on the stale bit -/
+  dmRefuse : Bool
+  /-- `reverse_circuit` returns a circuit with gate objects of its own (fix C16-3) -/
+  copyRev : Bool
+  /-- `to_chain_structure` returns a circuit with gate objects of its own (fix C16-4) -/
+  copyChain : Bool
+  /-- `RelaxationNoise` / `DecoherenceNoise` do not overwrite their own `t1`, `t2`, `coeff` (fix C16-5) -/
+  noiseLocal : Bool
 deriving DecidableEq, Repr
 
 /-! ## `_decimal_to_binary` and `_check_classical_control_value`, verbatim -/
@@ -155,6 +165,8 @@ structure Fields (Q P : Type) where
   opIndex : Nat                 -- `self._op_index`
   mres : Option (List Int)      -- `self._measure_results`
   mind : Nat                    -- `self._measure_ind`
+  mixed : List Int              -- `self._mixed_cbits` (fix C02-3; stays empty without it): bits written by a
+                                -- measurement in density-matrix mode
 
 /-- the simulator object: `self.cbits` is a REFERENCE (it may alias a caller's list) -/
 structure SimState (Q P : Type) where
@@ -284,6 +296,19 @@ def fires (g : Gate) (bits : Option (List Int)) : Except Err Bool :=
   | none => .ok true
   | some cs => checkCCV cs g.ccv bits
 
+/-- density-matrix mode, fix C02-3: `self._mixed_cbits.add(classical_store)` -/
+def noteMixed (cfg : Cfg) (store : Option Int) (mixed : List Int) : List Int :=
+  match store with
+  | some s => if cfg.dmRefuse then s :: mixed else mixed
+  | none => mixed
+
+/-- fix C02-3: `self._mixed_cbits.intersection(op.classical_controls)` is not empty (the set is only ever filled
+in density-matrix mode) -/
+def refuses (cfg : Cfg) (g : Gate) (mixed : List Int) : Bool :=
+  cfg.dmRefuse && (match g.cc with
+    | some cs => cs.any (fun x => mixed.contains x)
+    | none => false)
+
 /-- `step()` on the attribute values -/
 def coreStep {Q P : Type} [Mul P] (B : Backend Q P) (cfg : Cfg) (mode : Mode) (c : Circuit)
     (k : Core Q P) (rng : List Int) : Out Q P :=
@@ -301,8 +326,10 @@ def coreStep {Q P : Type} [Mul P] (B : Backend Q P) (cfg : Cfg) (mode : Mode) (c
         | none => ⟨k1, rng, some .attr, []⟩
         | some q =>
           if t ≥ c.nq then ⟨k1, rng, some .value, []⟩
-          else ⟨{ k1 with f := { k1.f with st := some (B.dephase t q) } }, rng, none, [Ev.dephased idx]⟩
+          else ⟨{ k1 with f := { k1.f with st := some (B.dephase t q), mixed := noteMixed cfg store k1.f.mixed } },
+                rng, none, [Ev.dephased idx]⟩
     | .gate g =>
+      if refuses cfg g k1.f.mixed then ⟨k1, rng, some .notimpl, []⟩ else
       match fires g k1.bits with
       | .error e => ⟨k1, rng, some e, []⟩
       | .ok false => ⟨k1, rng, none, [Ev.skipped idx]⟩
@@ -350,7 +377,7 @@ def initRun {Q P : Type} [One P] (cfg : Cfg) (c : Circuit) (w : World Q P) (st :
     | none => fresh
   { w with heap := hr.1,
            sim := some { cbits := hr.2,
-                         f := { st := some st, form := .qobj, prob := 1, opIndex := 0, mres := mr, mind := 0 } } }
+                         f := { st := some st, form := .qobj, prob := 1, opIndex := 0, mres := mr, mind := 0, mixed := [] } } }
 
 /-- `step()` -/
 def step {Q P : Type} [Mul P] (B : Backend Q P) (cfg : Cfg) (mode : Mode) (c : Circuit) (w : World Q P) :
